@@ -3,10 +3,13 @@
 Utilities with a Coq model AND theorems (tie = raw arrays compared by Coq, then dense):
   expand_index_pointers, expand_indices_nd, expand_indices_add_increment, rlencode,
   rldecode, slice_sparse_matrix, slice_indices, zero_rows, zero_columns, stack_mat,
-  stack_diag, merge_matrices, block_diag_index (both call forms).
+  stack_diag, merge_matrices, block_diag_index (both call forms), block_diag_matrix,
+  csr/csc_matrix_from_sparse_blocks (blocks in the requested format),
+  csr/csc_matrix_from_dense_blocks.
 Oracle-only (dense numpy reference on generated inputs, no Coq model):
-  csr/csc_matrix_from_sparse_blocks, csr/csc_matrix_from_dense_blocks, block_diag_matrix,
-  sparse_kronecker_product.
+  sparse_kronecker_product (a wrapper of scipy.sparse.kron), format conversion of blocks
+  handed to *_from_sparse_blocks in the other format, and every DATA TYPE question (the
+  Coq models work with exact values; result data types are checked by the oracle).
 """
 from fractions import Fraction
 
@@ -99,8 +102,25 @@ def dense_of_raw(M):
     return D
 
 
+def sane(S):
+    """The raw arrays of S describe a valid matrix.  Checked BEFORE any scipy routine touches a
+    result: toarray() on malformed storage reads or writes out of bounds (segfault)."""
+    if S.getformat() not in ("csr", "csc"):
+        return True
+    return raw_ok(dump(S))
+
+
+def full_of(S):
+    """toarray() as exact numbers, or None for malformed storage."""
+    if not sane(S):
+        return None
+    return [nums(r) for r in S.toarray()]
+
+
 def lines_of(S):
-    """Dense lines of a scipy result (rows for csr, columns for csc)."""
+    """Dense lines of a scipy result (rows for csr, columns for csc); None if malformed."""
+    if not sane(S):
+        return None
     A = S.toarray()
     if S.getformat() == "csc":
         A = A.T
@@ -193,16 +213,27 @@ class C35(Prop):
         "line lines[k] by line k of B for distinct lines IN ANY ORDER (argsort + np.insert + mask + "
         "cumsum bookkeeping), densely A[lines,:] = B / A[:,lines] = B, with its three ValueError "
         "checks; block_diag_index(m) and block_diag_index(m, n) = closed forms (zero extents "
-        "allowed); all for every well-formed matrix (unsorted or duplicate indices, empty lines, "
-        "empty extents). The models are tied to the code on every run: the real functions and the "
+        "allowed); csr/csc_matrix_from_sparse_blocks = block diagonal of the (rectangular) dense "
+        "blocks; block_diag_matrix and csr/csc_matrix_from_dense_blocks = block diagonal of the "
+        "line-major square reshapes of the values (incl. the tile/reshape index construction and the "
+        "ValueError on a wrong data size); all for every well-formed matrix (unsorted or duplicate "
+        "indices, empty lines, empty extents). The models are tied to the code on every run: the real functions and the "
         "models are executed on the same generated csr/csc triples and index sets and Coq compares "
         "the raw indptr/indices/data/shape and the dense form. Every utility of the property, "
         "modelled or not, is also checked against an independent dense numpy reference on the "
         "generated inputs.")
     level_note = (
-        "NOT proved (oracle-only, no Coq model): csr/csc_matrix_from_sparse_blocks, "
-        "csr/csc_matrix_from_dense_blocks, block_diag_matrix, sparse_kronecker_product (a two-line "
-        "wrapper of scipy.sparse.kron). Tied but not proved: the IndexError branch of merge_matrices "
+        "NOT proved (oracle-only, no Coq model): sparse_kronecker_product (a two-line wrapper of "
+        "scipy.sparse.kron(...).tocsc(): there is no porepy logic to transcribe); blocks given to "
+        "*_from_sparse_blocks in the other storage format (scipy's asformat converts them first). "
+        "DATA TYPES are outside the Coq models: the models compute with exact values (every generated "
+        "value is a multiple of 1/4 and enters Coq multiplied by 4; all modelled operations are "
+        "copies and sums); that the implementation neither truncates nor narrows values is checked by "
+        "the oracle, which compares exact values and the result data type with numpy's promotion "
+        "(stack_mat with a non-empty B, stack_diag, *_from_sparse_blocks, sparse_kronecker_product "
+        "for nd > 1) or with the operand's type (all others; merge_matrices keeps A's type and casts "
+        "B's values like the dense assignment does - that elementwise cast is applied by numpy in the "
+        "harness before the values enter the model). Tied but not proved: the IndexError branch of merge_matrices "
         "(a line number outside A). np.insert, np.argsort, fancy-index assignment, boolean masks and "
         "slice assignment are modelled by their documented semantics (insert: stable, in front of the "
         "old element at that position), not by numpy's implementation. csc is covered by reading the "
@@ -222,9 +253,15 @@ class C35(Prop):
             "plus ~12% invalid: shape/count mismatch, repeated or out-of-range line), boolean "
             "masks and single ints; integer bounds of any sign, empty and reversed ranges, "
             "broadcast and mismatching lengths (expand); counts with zeros and negatives, 2-D "
-            "operands (rldecode); blocks with zero extents; non-trivial = non-empty operand; "
+            "operands (rldecode); blocks with zero extents; DATA TYPES: every matrix / value array draws "
+            "its dtype from bool, int8, int32, int64, float32, float64 independently (so A vs B in "
+            "merge/stack and the blocks of a block list mix types in every order; merge: 50% equal "
+            "types), float values mostly non-integral multiples of 1/4 so that truncation is visible; "
+            "bool matrices and the mixed-type B of a merge carry no duplicate indices; "
+            "non-trivial = non-empty operand; "
             "distinct by (case, output)")
-    trusted = ["small integer data stand for float data (all operations are copies/sums)",
+    trusted = ["values are multiples of 1/4 and enter Coq as 4*x in Z (all modelled operations are "
+               "copies/sums, hence linear); numpy's elementwise cast of B to A's dtype in merge",
                "sps.csr_matrix((data, indices, indptr), shape) stores the arrays unchanged"]
     assumptions = ["line/index arguments are non-negative (no numpy wrap-around) numpy integer arrays",
                    "matrices are well-formed compressed storage (scipy check_format)",
@@ -273,12 +310,14 @@ class C35(Prop):
         k = rng.choice([0, 1, 2, 3, 5, 8, 10])
         if m == 0 and k == 0:
             k = 1  # a 0 x 0 array: numpy skips the bounds check of A[:, [-1]]; not modelled
+        dt = rng.choice(DTYPES)
+        pool = {"bool": [0, 1]}.get(dt, FLOATS[3:6] if dt.startswith("float") else [0, 1, 2])
         cols, cur = [], None
         for _ in range(k):
             if cur is None or rng.random() < 0.45:
-                cur = [rng.randint(0, 2) for _ in range(m)]
+                cur = [rng.choice(pool) for _ in range(m)]
             cols.append(list(cur))
-        return {"fn": "rlencode", "m": m, "cols": cols}
+        return {"fn": "rlencode", "m": m, "cols": cols, "dtype": dt}
 
     def g_rldecode(self, rng):
         k = rng.randint(0, 6)
@@ -291,10 +330,11 @@ class C35(Prop):
             la = k + rng.randint(1, 3)
         elif r < 0.2 and k > 0:
             la = k - rng.randint(1, k)
+        dt = rng.choice(DTYPES)
         if rng.random() < 0.15:
-            A = [[rng.randint(-9, 9) for _ in range(2)] for _ in range(la)]
-            return {"fn": "rldecode", "A2": A, "n": n}
-        return {"fn": "rldecode", "A": [rng.randint(-9, 9) for _ in range(la)], "n": n}
+            A = [gen_vals(rng, dt, 2) for _ in range(la)]
+            return {"fn": "rldecode", "A2": A, "n": n, "dtype": dt}
+        return {"fn": "rldecode", "A": gen_vals(rng, dt, la), "n": n, "dtype": dt}
 
     def _lines(self, rng, M, unique=False, bad=0.05):
         nm = M["nmaj"]
@@ -358,21 +398,28 @@ class C35(Prop):
             lines = lines + [A["nmaj"] + rng.randint(0, 1)]   # IndexError: no such line
             rng.shuffle(lines)
             nb += 1
-        B = gen_mat(rng, fmt=A["fmt"], nmaj=nb, nmin=nmin)
+        # half of the merges mix the data types of A and B.  B's values are then cast to A's
+        # type entry by entry (np.insert), which equals the dense assignment A[lines] = B only
+        # if B has no duplicate entries: none are generated in that case
+        dtb = A["dtype"] if rng.random() < 0.5 else rng.choice(DTYPES)
+        B = gen_mat(rng, fmt=A["fmt"], nmaj=nb, nmin=nmin, dtype=dtb, nodup=(dtb != A["dtype"]))
         return {"fn": "merge", "A": A, "B": B, "lines": lines}
 
     def g_blocks_sparse(self, rng):
         fmt = rng.choice(["csr", "csc"])
+        same = rng.random() < 0.7      # blocks already in the requested format (the modelled path)
         blocks = []
-        for _ in range(rng.randint(1, 4)):
-            b = gen_mat(rng, nmaj=rng.randint(0, 3), nmin=rng.randint(0, 3))
+        for _ in range(rng.choice([0, 1, 1, 2, 2, 3, 3, 4])):
+            b = gen_mat(rng, fmt=fmt if same else None, nmaj=rng.randint(0, 3), nmin=rng.randint(0, 3))
             blocks.append(b)
         return {"fn": "blocks_sparse", "fmt": fmt, "blocks": blocks}
 
     def g_blocks_dense(self, rng):
         bs, nb = rng.randint(1, 3), rng.randint(0, 3)
+        dt = rng.choice(DTYPES)
+        extra = rng.choice([1, 2]) if rng.random() < 0.08 else 0    # ValueError: wrong data size
         return {"fn": "blocks_dense", "fmt": rng.choice(["csr", "csc"]), "bs": bs, "nb": nb,
-                "data": [rng.randint(-5, 5) for _ in range(bs * bs * nb)]}
+                "data": gen_vals(rng, dt, bs * bs * nb + extra), "dtype": dt}
 
     def g_bdi(self, rng):
         k = rng.randint(1, 4)
@@ -384,8 +431,8 @@ class C35(Prop):
 
     def g_bdm(self, rng):
         sz = [rng.randint(1, 3) for _ in range(rng.randint(1, 3))]
-        return {"fn": "bdm", "sz": sz,
-                "vals": [rng.randint(-5, 5) for _ in range(sum(s * s for s in sz))]}
+        dt = rng.choice(DTYPES)
+        return {"fn": "bdm", "sz": sz, "vals": gen_vals(rng, dt, sum(s * s for s in sz)), "dtype": dt}
 
     def g_kron(self, rng):
         return {"fn": "kron", "M": gen_mat(rng, nmaj=rng.randint(0, 3), nmin=rng.randint(0, 3)),
@@ -412,17 +459,23 @@ class C35(Prop):
         if fn == "expand_incr":
             return {"ok": ints(ao.expand_indices_add_increment(ia(case["x"]), case["n"], case["incr"]))}
         if fn == "rlencode":
-            A = np.array(case["cols"], dtype=int).reshape(len(case["cols"]), case["m"]).T
+            A = arr(case["cols"], dt_of(case)).reshape(len(case["cols"]), case["m"]).T
 
             def f():
                 v, num = mo.rlencode(A)
-                return {"cols": [ints(c) for c in v.T], "num": ints(num)}
+                return {"cols": [nums(c) for c in v.T], "num": ints(num), "dtype": str(v.dtype)}
             return guarded(f)
         if fn == "rldecode":
             if "A2" in case:
-                A = np.array(case["A2"], dtype=int).reshape(len(case["A2"]), 2)
-                return guarded(lambda: [ints(r) for r in mo.rldecode(A, ia(case["n"]))])
-            return guarded(lambda: ints(mo.rldecode(ia(case["A"]), ia(case["n"]))))
+                A = arr(case["A2"], dt_of(case)).reshape(len(case["A2"]), 2)
+                r = guarded(lambda: mo.rldecode(A, ia(case["n"])))
+                if "ok" in r:
+                    r = {"ok": [nums(x) for x in r["ok"]], "dtype": str(r["ok"].dtype)}
+                return r
+            r = guarded(lambda: mo.rldecode(arr(case["A"], dt_of(case)), ia(case["n"])))
+            if "ok" in r:
+                r = {"ok": nums(r["ok"]), "dtype": str(r["ok"].dtype)}
+            return r
         if fn == "slice":
             arg, _ = self._index(case)
 
@@ -464,29 +517,41 @@ class C35(Prop):
         if fn == "blocks_sparse":
             blocks = [mk(b) for b in case["blocks"]]
             f = mo.csr_matrix_from_sparse_blocks if case["fmt"] == "csr" else mo.csc_matrix_from_sparse_blocks
-            S = f(blocks)
-            return {"ok": {"raw": dump(S), "full": [ints(r) for r in S.toarray()],
-                           "shape": [int(s) for s in S.shape]}}
+
+            def g():
+                S = f(blocks)
+                return {"raw": dump(S), "full": full_of(S), "shape": [int(s) for s in S.shape]}
+            return guarded(g)
         if fn == "blocks_dense":
             f = mo.csr_matrix_from_dense_blocks if case["fmt"] == "csr" else mo.csc_matrix_from_dense_blocks
-            S = f(ia(case["data"]), case["bs"], case["nb"])
-            return {"ok": {"raw": dump(S), "full": [ints(r) for r in S.toarray()]}}
+            def g():
+                S = f(arr(case["data"], dt_of(case)), case["bs"], case["nb"])
+                return {"raw": dump(S), "full": full_of(S)}
+            return guarded(g)
         if fn == "bdi":
             if case["n"] is None:
                 return {"ok": {"i": ints(mo.block_diag_index(ia(case["m"])))}}
             i, j = mo.block_diag_index(ia(case["m"]), ia(case["n"]))
             return {"ok": {"i": ints(i), "j": ints(j)}}
         if fn == "bdm":
-            S = mo.block_diag_matrix(ia(case["vals"]), ia(case["sz"]))
-            return {"ok": {"full": [ints(r) for r in S.toarray()]}}
+            S = mo.block_diag_matrix(arr(case["vals"], dt_of(case)), ia(case["sz"]))
+            return {"ok": {"raw": dump(S), "full": full_of(S)}}
         if fn == "kron":
             S = mo.sparse_kronecker_product(mk(case["M"]), case["nd"])
-            return {"ok": {"full": [ints(r) for r in S.toarray()], "fmt": S.getformat()}}
+            return {"ok": {"full": full_of(S), "fmt": S.getformat(), "dtype": str(S.dtype)}}
         raise ValueError(fn)
 
     # -------------------------------------------------------------- oracle (dense reference)
+    @staticmethod
+    def _malformed(res):
+        o = res.get("ok") if isinstance(res, dict) else None
+        return isinstance(o, dict) and any(k in o and o[k] is None for k in ("dense", "full"))
+
     def oracle(self, case, res):
         fn = case["fn"]
+        if self._malformed(res):
+            return (f"{fn}: the result is not valid compressed storage (index pointer / indices / "
+                    f"data inconsistent with the shape): {res['ok'].get('raw')}")
         return getattr(self, "o_" + fn)(case, res)
 
     def o_expand(self, case, res):
@@ -527,6 +592,8 @@ class C35(Prop):
             return f"np.repeat(rlencode(A)) = {dec} differs from A = {cols}"
         if any(a == b for a, b in zip(v, v[1:])):
             return "rlencode kept two equal neighbouring columns"
+        if res["ok"]["dtype"] != dt_of(case):
+            return f"rlencode changed the data type {dt_of(case)} -> {res['ok']['dtype']}"
 
     def o_rldecode(self, case, res):
         A = case.get("A", case.get("A2"))
@@ -536,6 +603,8 @@ class C35(Prop):
         exp = [a for a, c in zip(A, n) for _ in range(c)]  # np.repeat(A[:len(n)], n)
         if res.get("ok") != exp:
             return f"rldecode returned {res}, np.repeat gives {exp}"
+        if res["dtype"] != dt_of(case):
+            return f"rldecode changed the data type {dt_of(case)} -> {res['dtype']}"
 
     def _sel_oracle(self, case, res, what):
         M = case["M"]
@@ -559,6 +628,8 @@ class C35(Prop):
             return f"slice_sparse_matrix returned malformed storage {R}"
         if (R["nmaj"], R["nmin"]) != (len(ind), case["M"]["nmin"]) or res["ok"]["dense"] != exp:
             return f"slice {ind}: dense result {res['ok']['dense']} differs from dense slicing {exp}"
+        if R["dtype"] != dt_of(case["M"]):
+            return f"slice_sparse_matrix changed the data type {dt_of(case['M'])} -> {R['dtype']}"
 
     def o_slice_indices(self, case, res):
         ind = self._sel_oracle(case, res, "slice_indices")
@@ -583,6 +654,8 @@ class C35(Prop):
             return f"zeroing lines {case['ind']}: dense {res['ok']['dense']} differs from {D}"
         if (R["indptr"], R["indices"]) != (M["indptr"], M["indices"]):
             return "zero_rows/zero_columns changed the sparsity structure"
+        if R["dtype"] != dt_of(M):
+            return f"zero_rows/zero_columns changed the data type {dt_of(M)} -> {R['dtype']}"
 
     def o_stack_mat(self, case, res):
         A, B = case["A"], case["B"]
@@ -595,6 +668,9 @@ class C35(Prop):
         if not raw_ok(R) or (R["nmaj"], R["nmin"]) != (A["nmaj"] + B["nmaj"], A["nmin"]) \
                 or res["ok"]["dense"] != exp:
             return f"stack_mat: {res['ok']} differs from the dense stack {exp}"
+        # np.vstack / np.hstack promote; with no lines in B the operand is returned untouched
+        if B["nmaj"] > 0 and R["dtype"] != promoted(A, B):
+            return f"stack_mat: data type {R['dtype']}, dense stacking gives {promoted(A, B)}"
 
     def o_stack_diag(self, case, res):
         A, B = case["A"], case["B"]
@@ -607,7 +683,9 @@ class C35(Prop):
                 or res["ok"]["dense"] != exp:
             return (f"stack_diag: shape {(R['nmaj'], R['nmin'])} dense {res['ok']['dense']} differs "
                     f"from block diagonal {exp}")
-        if res["ok"]["A"] != A or res["ok"]["B"] != B:
+        if R["dtype"] != promoted(A, B):
+            return f"stack_diag: data type {R['dtype']}, the dense block diagonal has {promoted(A, B)}"
+        if not same_raw(res["ok"]["A"], A) or not same_raw(res["ok"]["B"], B):
             return "stack_diag modified an operand"
 
     def o_merge(self, case, res):
@@ -618,43 +696,64 @@ class C35(Prop):
             return None if "err" in res else "merge_matrices accepted invalid input"
         if "ok" not in res:
             return f"merge_matrices raised {res['err']} on valid input"
-        exp = dense_of_raw(A)
-        DB = dense_of_raw(B)
-        for k, i in enumerate(lines):
-            exp[i] = DB[k]
+        # dense reference with numpy's own assignment semantics: the dense A keeps its data
+        # type and the lines of B are cast to it
+        DA = arr(dense_of_raw(A), dt_of(A)).reshape(A["nmaj"], A["nmin"])
+        DB = arr(dense_of_raw(B), dt_of(B)).reshape(B["nmaj"], B["nmin"])
+        if lines:
+            DA[np.array(lines, dtype=int), :] = DB
+        exp = [nums(r) for r in DA]
         R = res["ok"]["raw"]
         if not raw_ok(R) or (R["nmaj"], R["nmin"]) != (A["nmaj"], A["nmin"]) or res["ok"]["dense"] != exp:
             return f"merge_matrices lines {lines}: {res['ok']['dense']} differs from dense assignment {exp}"
-        if res["ok"]["B"] != B:
+        if R["dtype"] != dt_of(A):
+            return f"merge_matrices changed the data type of A: {dt_of(A)} -> {R['dtype']}"
+        if not same_raw(res["ok"]["B"], B):
             return "merge_matrices modified B"
 
     @staticmethod
     def _full(M):
-        D = np.array(dense_of_raw(M), dtype=int).reshape(M["nmaj"], M["nmin"])
+        D = arr(dense_of_raw(M), dt_of(M)).reshape(M["nmaj"], M["nmin"])
         return D if M["fmt"] == "csr" else D.T
 
     def o_blocks_sparse(self, case, res):
+        if not case["blocks"]:
+            return None      # no block at all: outside the domain (ValueError is acceptable)
+        if "ok" not in res:
+            return f"cs{case['fmt'][2]}_matrix_from_sparse_blocks raised {res['err']}"
         fulls = [self._full(b) for b in case["blocks"]]
         nr, nc = sum(f.shape[0] for f in fulls), sum(f.shape[1] for f in fulls)
-        E = np.zeros((nr, nc), dtype=int)
+        # scipy.linalg.block_diag semantics: the data type is numpy's promotion of all blocks
+        edt = promoted(*case["blocks"])
+        E = np.zeros((nr, nc), dtype=np.dtype(edt))
         r = c = 0
         for f in fulls:
             E[r:r + f.shape[0], c:c + f.shape[1]] = f
             r, c = r + f.shape[0], c + f.shape[1]
-        got = np.array(res["ok"]["full"], dtype=int).reshape(res["ok"]["shape"])
-        if got.shape != E.shape or (got != E).any() or res["ok"]["raw"]["fmt"] != case["fmt"] \
+        got = np.array(res["ok"]["full"], dtype=float).reshape(res["ok"]["shape"])
+        if got.shape != E.shape or (got != E.astype(float)).any() or res["ok"]["raw"]["fmt"] != case["fmt"] \
                 or not raw_ok(res["ok"]["raw"]):
-            return f"cs{case['fmt'][2]}_matrix_from_sparse_blocks: {got.tolist()} differs from block_diag {E.tolist()}"
+            return (f"cs{case['fmt'][2]}_matrix_from_sparse_blocks: {got.tolist()} differs from "
+                    f"block_diag {E.tolist()} (block data types {[dt_of(b) for b in case['blocks']]})")
+        if res["ok"]["raw"]["dtype"] != edt:
+            return (f"cs{case['fmt'][2]}_matrix_from_sparse_blocks: data type {res['ok']['raw']['dtype']}, "
+                    f"block_diag of the dense blocks has {edt}")
 
     def o_blocks_dense(self, case, res):
         bs, nb, d = case["bs"], case["nb"], case["data"]
-        E = np.zeros((bs * nb, bs * nb), dtype=int)
+        if len(d) != bs * bs * nb:
+            return None if "err" in res else "cs*_matrix_from_dense_blocks accepted data of the wrong size"
+        if "ok" not in res:
+            return f"cs*_matrix_from_dense_blocks raised {res['err']}"
+        E = np.zeros((bs * nb, bs * nb), dtype=float)
         for b in range(nb):
-            blk = np.array(d[b * bs * bs:(b + 1) * bs * bs], dtype=int).reshape(bs, bs)
+            blk = np.array(d[b * bs * bs:(b + 1) * bs * bs], dtype=float).reshape(bs, bs)
             E[b * bs:(b + 1) * bs, b * bs:(b + 1) * bs] = blk if case["fmt"] == "csr" else blk.T
-        got = np.array(res["ok"]["full"], dtype=int).reshape(bs * nb, bs * nb)
+        got = np.array(res["ok"]["full"], dtype=float).reshape(bs * nb, bs * nb)
         if (got != E).any() or not raw_ok(res["ok"]["raw"]):
             return f"cs{case['fmt'][2]}_matrix_from_dense_blocks: {got.tolist()} differs from {E.tolist()}"
+        if res["ok"]["raw"]["dtype"] != dt_of(case):
+            return f"cs{case['fmt'][2]}_matrix_from_dense_blocks changed the data type {dt_of(case)} -> {res['ok']['raw']['dtype']}"
 
     def o_bdi(self, case, res):
         m, n = case["m"], case["n"]
@@ -678,24 +777,32 @@ class C35(Prop):
     def o_bdm(self, case, res):
         sz, v = case["sz"], case["vals"]
         N = sum(sz)
-        E = np.zeros((N, N), dtype=int)
+        E = np.zeros((N, N), dtype=float)
         off = p = 0
         for s in sz:
-            E[off:off + s, off:off + s] = np.array(v[p:p + s * s], dtype=int).reshape(s, s)
+            E[off:off + s, off:off + s] = np.array(v[p:p + s * s], dtype=float).reshape(s, s)
             off, p = off + s, p + s * s
-        if res["ok"]["full"] != [ints(r) for r in E]:
+        if res["ok"]["full"] != [nums(r) for r in E]:
             return f"block_diag_matrix: {res['ok']['full']} differs from {E.tolist()}"
+        if res["ok"]["raw"]["dtype"] != dt_of(case):
+            return f"block_diag_matrix changed the data type {dt_of(case)} -> {res['ok']['raw']['dtype']}"
 
     def o_kron(self, case, res):
         F, nd = self._full(case["M"]), case["nd"]
-        E = np.kron(F, np.eye(nd, dtype=int)).reshape(F.shape[0] * nd, F.shape[1] * nd)
-        got = np.array(res["ok"]["full"], dtype=int).reshape(E.shape)
+        E = np.kron(F.astype(float), np.eye(nd)).reshape(F.shape[0] * nd, F.shape[1] * nd)
+        got = np.array(res["ok"]["full"], dtype=float).reshape(E.shape)
         if (got != E).any():
             return f"sparse_kronecker_product nd={nd}: {got.tolist()} differs from np.kron {E.tolist()}"
+        # np.kron(A, np.eye(nd)) is a float64 array; for nd = 1 the operand itself is returned
+        edt = "float64" if nd > 1 else dt_of(case["M"])
+        if res["ok"]["dtype"] != edt:
+            return f"sparse_kronecker_product nd={nd}: data type {res['ok']['dtype']}, np.kron gives {edt}"
 
     # -------------------------------------------------------------- Coq tie
     def coq_case(self, case, res):
         fn = case["fn"]
+        if self._malformed(res):
+            return "false"      # no model output is malformed storage; the oracle reports it
         if fn == "expand":
             return (f"agree_lz (expand_index_pointers {clist(case['lo'], cz)} {clist(case['hi'], cz)}) "
                     f"{cres(res, lambda l: clist(l, cz))}")
@@ -706,14 +813,14 @@ class C35(Prop):
             return (f"eqb_listZ (expand_indices_add_increment {clist(case['x'], cz)} {cnat(case['n'])} "
                     f"{cz(case['incr'])}) {clist(res['ok'], cz)}")
         if fn == "rlencode":
-            r = cres(res, lambda o: f"({cllz(o['cols'])}, {clist(o['num'], cz)})")
+            r = cres(res, lambda o: f"({cllz(o['cols'])}, {clist(o['num'], cz)})")  # cols scaled
             return f"agree_rlencode (rlencode eqb_listZ {cllz(case['cols'])}) {r}"
         if fn == "rldecode":
             if "A2" in case:
                 return (f"agree_llz (rldecode {cllz(case['A2'])} {clist(case['n'], cz)}) "
                         f"{cres(res, cllz)}")
-            return (f"agree_lz (rldecode {clist(case['A'], cz)} {clist(case['n'], cz)}) "
-                    f"{cres(res, lambda l: clist(l, cz))}")
+            return (f"agree_lz (rldecode {clist(case['A'], cz4)} {clist(case['n'], cz)}) "
+                    f"{cres(res, lambda l: clist(l, cz4))}")
         if fn == "slice":
             _, ind = self._index(case)
             m = f"(slice_sparse_matrix {ccsr(case['M'])} {clist(ind, cnat)})"
@@ -744,12 +851,38 @@ class C35(Prop):
             return (f"andb (agree_csr {m} (Ok {ccsr(res['ok']['raw'])})) "
                     f"(agree_dense {m} {cllz(res['ok']['dense'])})")
         if fn == "merge":
-            m = (f"(merge_matrices {ccsr(case['A'])} {ccsr(case['B'])} "
+            # the values of B enter A's arrays through np.insert, which casts them to A's data
+            # type: that elementwise cast is done here with numpy, the model copies values
+            Bc = dict(case["B"], data=nums(arr(case["B"]["data"], dt_of(case["B"])).astype(
+                np.dtype(dt_of(case["A"])))))
+            m = (f"(merge_matrices {ccsr(case['A'])} {ccsr(Bc)} "
                  f"{clist(case['lines'], cnat)})")
             if "err" in res:
                 return f"agree_csr {m} (Err {res['err']})"
             return (f"andb (agree_csr {m} (Ok {ccsr(res['ok']['raw'])})) "
                     f"(agree_dense {m} {cllz(res['ok']['dense'])})")
+        if fn == "blocks_sparse":
+            if any(b["fmt"] != case["fmt"] for b in case["blocks"]):
+                return None    # scipy converts the format of such blocks first: oracle only
+            m = f"(csx_from_sparse_blocks {clist(case['blocks'], ccsr)})"
+            if "err" in res:
+                return f"agree_csr {m} (Err {res['err']})"
+            R = res["ok"]["raw"]
+            F = np.array(res["ok"]["full"], dtype=float).reshape(res["ok"]["shape"])
+            D = [nums(r) for r in (F if R["fmt"] == "csr" else F.T)]
+            return f"andb (agree_csr {m} (Ok {ccsr(R)})) (agree_dense {m} {cllz(D)})"
+        if fn == "bdm":
+            m = f"(block_diag_matrix {clist(case['vals'], cz4)} {clist(case['sz'], cnat)})"
+            return (f"andb (agree_csr {m} (Ok {ccsr(res['ok']['raw'])})) "
+                    f"(agree_dense {m} {cllz(res['ok']['full'])})")
+        if fn == "blocks_dense":
+            m = (f"(csx_from_dense_blocks {clist(case['data'], cz4)} {cnat(case['bs'])} "
+                 f"{cnat(case['nb'])})")
+            if "err" in res:
+                return f"agree_csr {m} (Err {res['err']})"
+            F = np.array(res["ok"]["full"], dtype=float).reshape(case["bs"] * case["nb"], case["bs"] * case["nb"])
+            D = [nums(r) for r in (F if case["fmt"] == "csr" else F.T)]
+            return f"andb (agree_csr {m} (Ok {ccsr(res['ok']['raw'])})) (agree_dense {m} {cllz(D)})"
         if fn == "bdi":
             if case["n"] is None:
                 return (f"eqb_listN (block_diag_index1 {clist(case['m'], cnat)}) "
@@ -763,7 +896,7 @@ class C35(Prop):
         if fn == "expand":
             return f"expand_index_pointers {clist(case['lo'], cz)} {clist(case['hi'], cz)}"
         if fn == "rldecode" and "A" in case:
-            return f"rldecode {clist(case['A'], cz)} {clist(case['n'], cz)}"
+            return f"rldecode {clist(case['A'], cz4)} {clist(case['n'], cz)}"
         if fn == "rlencode":
             return f"rlencode eqb_listZ {cllz(case['cols'])}"
         if fn in ("slice", "slice_indices"):
@@ -776,6 +909,12 @@ class C35(Prop):
             return f"{fn} {ccsr(case['A'])} {ccsr(case['B'])}"
         if fn == "merge":
             return f"merge_matrices {ccsr(case['A'])} {ccsr(case['B'])} {clist(case['lines'], cnat)}"
+        if fn == "blocks_sparse":
+            return f"csx_from_sparse_blocks {clist(case['blocks'], ccsr)}"
+        if fn == "bdm":
+            return f"block_diag_matrix {clist(case['vals'], cz4)} {clist(case['sz'], cnat)}"
+        if fn == "blocks_dense":
+            return f"csx_from_dense_blocks {clist(case['data'], cz4)} {cnat(case['bs'])} {cnat(case['nb'])}"
         return None
 
     def nontrivial(self, case, res):
@@ -824,12 +963,13 @@ class C35(Prop):
                     "expand_index_pointers", "expand_indices_nd", "expand_indices_add_increment",
                     "rlencode", "rldecode", "slice_sparse_matrix", "slice_indices", "zero_rows",
                     "zero_columns", "stack_mat", "stack_diag", "merge_matrices",
-                    "block_diag_index(m)", "block_diag_index(m, n)"],
-                "utilities_oracle_only": ["csr_matrix_from_sparse_blocks",
-                                          "csc_matrix_from_sparse_blocks",
-                                          "csr_matrix_from_dense_blocks",
-                                          "csc_matrix_from_dense_blocks", "block_diag_matrix",
-                                          "sparse_kronecker_product"]}
+                    "block_diag_index(m)", "block_diag_index(m, n)", "block_diag_matrix",
+                    "csr_matrix_from_sparse_blocks", "csc_matrix_from_sparse_blocks",
+                    "csr_matrix_from_dense_blocks", "csc_matrix_from_dense_blocks"],
+                "utilities_oracle_only": ["sparse_kronecker_product",
+                                          "*_from_sparse_blocks with blocks of the other format",
+                                          "result data types of all utilities"],
+                "data_types_generated": DTYPES}
 
 
 PROP = C35()
